@@ -215,7 +215,7 @@ func checkValueHistogramOn(e *histEnv, on tally.Scope, name string, arg tally.Bu
 	orig := append([]float64{}, spec...)
 	var argCopy []float64
 	if vb, ok := arg.(tally.ValueBuckets); ok {
-		argCopy = append([]float64{}, vb...)
+		argCopy = append([]float64{}, vb[:cap(vb)]...) // with whatever lies behind its end: spare capacity is the caller's too
 	}
 	mark := 0
 	if e.rec != nil {
@@ -227,9 +227,9 @@ func checkValueHistogramOn(e *histEnv, on tally.Scope, name string, arg tally.Bu
 	}
 	steps++
 	if vb, ok := arg.(tally.ValueBuckets); ok {
-		for i := range vb {
-			if math.Float64bits(vb[i]) != math.Float64bits(argCopy[i]) {
-				return "caller-slice-modified", fmt.Sprintf("Histogram() reordered the caller's bounds: %v -> %v", argCopy, []float64(vb)), steps
+		for i := range vb[:cap(vb)] {
+			if math.Float64bits(vb[:cap(vb)][i]) != math.Float64bits(argCopy[i]) {
+				return "caller-slice-modified", fmt.Sprintf("Histogram() changed the caller's slice (length %d, capacity %d): %v -> %v", len(vb), cap(vb), argCopy, []float64(vb[:cap(vb)])), steps
 			}
 		}
 	}
@@ -328,7 +328,7 @@ func checkDurationHistogramOn(e *histEnv, on tally.Scope, name string, arg tally
 	orig := append([]time.Duration{}, spec...)
 	var argCopy []time.Duration
 	if db, ok := arg.(tally.DurationBuckets); ok {
-		argCopy = append([]time.Duration{}, db...)
+		argCopy = append([]time.Duration{}, db[:cap(db)]...)
 	}
 	mark := 0
 	if e.rec != nil {
@@ -340,9 +340,9 @@ func checkDurationHistogramOn(e *histEnv, on tally.Scope, name string, arg tally
 	}
 	steps++
 	if db, ok := arg.(tally.DurationBuckets); ok {
-		for i := range db {
-			if db[i] != argCopy[i] {
-				return "caller-slice-modified", fmt.Sprintf("Histogram() reordered the caller's bounds: %v -> %v", argCopy, []time.Duration(db)), steps
+		for i := range db[:cap(db)] {
+			if db[:cap(db)][i] != argCopy[i] {
+				return "caller-slice-modified", fmt.Sprintf("Histogram() changed the caller's slice (length %d, capacity %d): %v -> %v", len(db), cap(db), argCopy, []time.Duration(db[:cap(db)])), steps
 			}
 		}
 	}
@@ -446,7 +446,7 @@ func c03Jobs(tier string) []*SeqJob {
 			spec[i] = va[k]
 		}
 		e := newHistEnv(path, nil)
-		return checkValueHistogram(e, "h", tally.ValueBuckets(append([]float64{}, spec...)), spec)
+		return checkValueHistogram(e, "h", tally.ValueBuckets(append(make([]float64, 0, len(spec)+2), spec...)), spec)
 	}
 	runDur := func(path histPath, idx []int) (string, string, int) {
 		spec := make([]time.Duration, len(idx))
@@ -454,7 +454,7 @@ func c03Jobs(tier string) []*SeqJob {
 			spec[i] = da[k]
 		}
 		e := newHistEnv(path, nil)
-		return checkDurationHistogram(e, "h", tally.DurationBuckets(append([]time.Duration{}, spec...)), spec)
+		return checkDurationHistogram(e, "h", tally.DurationBuckets(append(make([]time.Duration, 0, len(spec)+2), spec...)), spec)
 	}
 	parse := func(ops []string) (kind string, path histPath, idx []int) {
 		kind = ops[0]
